@@ -193,9 +193,11 @@ func (s *CollapsingLowestDenseStore) Clear() {
 }
 
 func (s *CollapsingLowestDenseStore) Reweight(w float64) error {
+	minIndex := s.minIndex
 	err := s.DenseStore.Reweight(w)
-	if s.IsEmpty() {
-		// All the counts may have underflowed to zero.
+	if s.IsEmpty() || s.minIndex != minIndex {
+		// The counts of the lowest bins, which the collapsed bin is one of, may
+		// have underflowed to zero (possibly all the counts).
 		s.isCollapsed = false
 	}
 	return err
